@@ -59,6 +59,16 @@ CLAIMED["C01"] = dict(
    note="Trusted: go/ssa static call graph of package vm (script functions are reached only through the closures built in funcExpr, which install their own boundary), reflect panics being ordinary panics.",
    technique="call-graph reachability under 'active deferred recover' + dominance rules on SSA (who-may-call, must-pass-through)",
    design="4 C01")
+CLAIMED["C03"] = dict(
+   text="Exhaustive static decision from the compiled parser: the grammar is recovered from the LALR tables alone and, for every completed binary / prefix / ternary item in every state it can occur in, the table's action on every operator lookahead is compared with the operator ladder of the statement (about 600 state x lookahead cells). Since an LR parser's decision depends only on (state, lookahead), this settles precedence and associativity for expression trees of any depth in every statement position. Actions: every expression symbol of a production is placed in the node built, operand fields take distinct symbols, productions agree on field order, the ?: production and its evaluator agree on the branches. Spelling: scanner character sequence -> token -> Operator string -> evaluator case agree for every operator production. Numbers: toNumber returns the unmodified strconv result, propagates every error, and the actions make it a parse error. Literal values themselves are delegated to strconv.",
+   note="Trusted: the table decoder (replica of goyacc's runtime lookup; validated by unambiguous recovery of all 185 rules and by table range checks), go/types constant evaluation. Known finding: `in` is right-associative (pinned by TestItemInList).",
+   technique="exhaustive query of the LALR automaton recovered from the tables + syntax-tree rules over the grammar actions and the scanner",
+   design="4 C03")
+CLAIMED["C15"] = dict(
+   text="Totality and statelessness of parsing decided statically: every cycle of every scanner method has a net cursor advance (min-weight cycle search in the product of the CFG with 'cursor still on the head character', conditions on that character constant-folded), every token returned advances the cursor and never retreats behind its start, with the cursor at the end of input no loop can go round (EOF-world constant folding); the recovered grammar has no unit/empty derivation cycle; every may-panic instruction on the parse path (about 6800 obligations: slice indices and bounds in the hand-written scanner, type assertions / dereferences / method calls on semantic values in all 185 actions, $n windows, list element accesses) is discharged by a dominating guard, by the kinds and non-nil-ness every production assigns to the grammar symbol, or by the validated table ranges; each parse works on fresh objects; error positions come from the scanner's position of the current token, captured after blanks and before consumption; statement lists append in order; identifiers exclude '.'. Line/column arithmetic and the concatenation law are value-level and only follow informally.",
+   note="Trusted: go/ssa, the constant-folding interpreter for the small rune predicates, the goyacc runtime skeleton (compared with goyacc's own output in the thorough tier).",
+   technique="weighted-cycle (Bellman-Ford) analysis of the scanner CFG with constant folding + exhaustive may-panic obligation discharge over grammar actions",
+   design="4 C15")
 NOT_YET = "checker for this property is not built yet in this revision (see DESIGN.md section 4 for the planned static rules)"
 ALL = ["C%02d" % i for i in range(1, 21)]
 
